@@ -25,7 +25,7 @@ pub fn replay(cases: &str, verdicts: &str) {
             for off in [0.0, 1000.0, 1048576.0] {
                 let mut co = phi.clone();
                 co.reverse();
-                let ar = AR { p: phi.len(), coeffs: co, intercept: mu + off };
+                let ar = { let mut a = AR::new(phi.len()); a.coeffs = co; a.intercept = mu + off; a };
                 let d: Vec<f64> = data.iter().map(|t| t + off).collect();
                 let e: Vec<f64> = exp.iter().map(|t| t + off).collect();
                 let g = guard(|| ar.predict(&d, h));
@@ -44,7 +44,7 @@ pub fn replay(cases: &str, verdicts: &str) {
                 let mut co = vec![0.0; p];
                 if p == 1 { co[0] = 255.0 / 256.0; } else { co[0] = 2.0 * 0.998 * (0.05f64).cos(); co[1] = -0.998 * 0.998; }
                 let mut rc = co.clone(); rc.reverse();
-                let ar = AR { p, coeffs: rc, intercept: mu };
+                let ar = { let mut a = AR::new(p); a.coeffs = rc; a.intercept = mu; a };
                 let hist: Vec<f64> = data.iter().enumerate().map(|(i, t)| t * 8.0 + 40.0 + i as f64).collect();
                 let big = 700usize;
                 if let Some(f) = guard(|| ar.predict(&hist, big)) {
@@ -192,8 +192,16 @@ pub fn record(seed: u64, nev: usize, out: &str) {
                 t.emit(json!({"kind": "yw", "p": p, "n": n, "offset_class": if offset == 0.0 { 0 } else if offset < 1e5 { 1 } else { 2 }, "out": "ok",
                               "resid_eps_log2": if scaled <= 1 { 0 } else { (scaled as f64).log2().ceil() as i64 }, "intercept_dev_eps_log2": if ic_dev <= 1 { 0 } else { (ic_dev as f64).log2().ceil() as i64 }}));
                 // forecasts: shift equivariance and convergence to the mean (stationary fit)
-                let ar = AR { p, coeffs: { let mut r = co.clone(); r.reverse(); r }, intercept: ic };
+                let ar = { let mut a = AR::new(p); a.coeffs = { let mut r = co.clone(); r.reverse(); r }; a.intercept = ic; a };
                 let f = guard(|| ar.predict(&x, 1000));
+                // forecasts are a function of (coefficients, intercept, the history handed over): a FITTED object asked about another
+                // history of the training length (the series reversed; the series plus a constant) answers like an object that merely
+                // holds the same coefficients
+                let same_as_unfitted = guard(|| { let mut fa = AR::new(p); fa.fit(&x);
+                    let xr: Vec<f64> = x.iter().rev().cloned().collect(); let xc: Vec<f64> = x.iter().map(|v| v + 3.25).collect();
+                    let mut ua = AR::new(p); ua.coeffs = fa.coeffs.clone(); ua.intercept = fa.intercept;
+                    [&xr, &xc, &x].iter().all(|h| { let (a, b) = (fa.predict(h, 12), ua.predict(h, 12)); a.len() == b.len() && a.iter().zip(&b).all(|(s, t)| s.to_bits() == t.to_bits()) }) });
+                t.emit(json!({"kind": "forecast_history", "p": p, "n": n, "out": if same_as_unfitted.is_some() { "ok" } else { "panic" }, "same": same_as_unfitted.unwrap_or(false)}));
                 let xs: Vec<f64> = x.iter().map(|v| v + 4096.0).collect();
                 let fs = guard(|| { let mut a2 = AR::new(p); a2.fit(&xs); a2.predict(&xs, 20) });
                 if let (Some(f), Some(fs)) = (f, fs) {
